@@ -2160,6 +2160,9 @@ func (s *swamp) SaveFunction(t treasure.Treasure, guardID guard.ID) treasure.Tre
 		s.sendSwampInfo()
 
 		// immediately write the treasure to the chroniclerInterface if the write interval is 0
+		if verifhook.Enabled {
+			verifhook.Point("save.beforeMu", s, t.GetKey())
+		}
 		s.mu.RLock()
 		wi := s.writeInterval
 		inMem := s.inMemorySwamp
@@ -2246,6 +2249,9 @@ func (s *swamp) SaveFunction(t treasure.Treasure, guardID guard.ID) treasure.Tre
 		s.sendEventToHydra(t, existedTreasureObj, treasure.StatusModified)
 
 		// immediately write the treasure to the chroniclerInterface if the write interval is 0
+		if verifhook.Enabled {
+			verifhook.Point("save.beforeMu", s, t.GetKey())
+		}
 		s.mu.RLock()
 		wi := s.writeInterval
 		inMem := s.inMemorySwamp
